@@ -431,7 +431,10 @@ class Emitter:
         return self.expr(e.e, env, k)
 
     def e_int(self, e, env, k, expect=None):
-        ty = INT(e.suffix) if e.suffix else (expect if expect and is_int(expect) else INT("usize"))
+        # optional vocabulary key `int_lit_default: {fn key: int type name}`: the type an unsuffixed literal WITHOUT a typing
+        # context adopts inside that function (rustc infers it, e.g. from the return type `(i8, T)`); default usize
+        dflt = self.v.get("int_lit_default", {}).get(getattr(self, "cur_fn", None), "usize") if "int_lit_default" in self.v else "usize"
+        ty = INT(e.suffix) if e.suffix else (expect if expect and is_int(expect) else INT(dflt))
         return k(self.lit(e.val, ty), ty, env)
 
     def e_bool(self, e, env, k):
@@ -1887,6 +1890,18 @@ class Emitter:
                         env2 = env2.bind(rn, cn, t, mut)
                     if g is not None:
                         pg = self.try_pure(g, env2)
+                        if pg is None and self.v.get("monadic_guards"):
+                            # optional vocabulary key `monadic_guards: True`: a guard that can panic (it calls a translated
+                            # function that indexes a table) is evaluated only when the pattern matches; the later arms
+                            # are a thunk shared by "pattern does not match" and "guard is false"
+                            nxt = arm(j + 1)
+                            n = self.fresh("next")
+                            pre = "let %s := fun (_ : unit) =>\n%s in\n" % (n, ind(nxt, 4))
+                            inner = self.expr(g, env2, lambda gt, _gty, env3: "if %s then\n%s\nelse\n%s" % (
+                                gt, ind(self.expr(body, env3, kk)), ind("%s tt" % n)))
+                            if tests:
+                                inner = "if %s then\n%s\nelse\n%s" % (" && ".join(tests), ind(inner), ind("%s tt" % n))
+                            return pre + inner
                         if pg is None:
                             raise EmitError("match guard that can panic")
                         tests.append(pg[0])
